@@ -319,6 +319,14 @@ class BaseState(ABC):
                 operators, self, destructive=destructive
             )
 
+        # Check if the operator dimensions match
+        for op in operators:
+            if op.shape != (self.dimensions, self.dimensions):
+                raise ValueError(
+                    "At least one POVM operator has incorrect dimensions: "
+                    f"{op.shape}, expected({self.dimensions},{self.dimensions})"
+                )
+
         assert isinstance(self.expansion_level, ExpansionLevel)
         while self.expansion_level < ExpansionLevel.Matrix:
             self.expand()
